@@ -71,6 +71,14 @@ def _raw(fill, idx, shape, dtype, rng_vals=None):
         v = (idx + 2 * j + 1) % 4
     elif fill == "C":
         v = ((7 * idx + 3 * j + idx * j + 2) % 11 - 5) * 0.37 + 0.11
+    elif fill == "W":
+        if dt.kind == "b":
+            v = (idx + j + idx * j) % 3 != 0
+        else:
+            top = int(np.iinfo(dt).max)
+            v = top - ((3 * idx + 5 * j + idx * j) % 9)          # within 8 of the largest value of the dtype
+            if dt.kind == "i":
+                v = np.where((idx + j) % 4 == 3, -v, v)
     elif fill == "R":
         v = np.array(rng_vals[:n])
     else:
@@ -249,7 +257,7 @@ def all_shapes(max_ndim, max_size):
 
 
 def is_int_fill(fill):
-    return fill in ("A", "B", "E")
+    return fill in ("A", "B", "E", "W")
 
 
 def fills_for(dtype):
@@ -320,10 +328,25 @@ def _run(out, tier, seed):
                                  lambda: fn(op)(*args),
                                  lambda: [getattr(np, op)(np.stack(layer), axis=0) for layer in layers],
                                  exact=is_int_fill(fill) and op in RED_EXACT, scale=sc, trivial_ref=[layer[0] for layer in layers])
+    # narrow dtypes with values close to their limits (and bools): NumPy's reductions do not wrap around inside the operands' dtype
+    narrow = ["bool", "int8", "uint8", "int16"]
+    for kind, shape in itertools.product(("np", "da"), [(3,), (2, 3)]):
+        for dtype in narrow:
+            for n in range(2, nmax + 1):
+                args = args_of(kind, "W", n, shape, dtype)
+                layers = layers_of(kind, "W", n, shape, dtype)
+                sc = scale_of(layers)
+                for op in ("sum", "mean", "min", "max"):
+                    sp.check(f"C15/numpy-agreement/{op}/multi-arg/{kind}",
+                             {"op": op, "kind": kind, "n_args": n, "shape": list(shape), "dtype": dtype, "fill": "W", "call": f"backends.{op}(*args)"},
+                             lambda: fn(op)(*args),
+                             lambda: [getattr(np, op)(np.stack(layer), axis=0) for layer in layers],
+                             exact=op in RED_EXACT, scale=sc, trivial_ref=[layer[0] for layer in layers])
     sp.emit(out, "exhaustive enumeration",
             f"ops {RED} x kinds {KINDS} (ndarray / DataArray with coords / DataArray without coords / Dataset with 2 variables) x 2..{nmax} equally shaped "
             f"arguments x shapes {shapes_multi if quick else 'all shapes with ndim<=3, sizes 1..3, and ()'} x dtypes {dtypes}"
-            f"{' (+ ' + str(dtypes_small) + ' on shape (2,3))' if dtypes_small else ''} x fills A (ints -3..3), B (ints +-1,+-2), C (non-integer, float dtypes only); "
+            f"{' (+ ' + str(dtypes_small) + ' on shape (2,3))' if dtypes_small else ''} x fills A (ints -3..3), B (ints +-1,+-2), C (non-integer, float dtypes only); plus sum/mean/min/max of 2..6 ndarrays / DataArrays of dtype bool, int8, uint8, int16 "
+            f"filled within 8 of the dtype's largest value (fill W: the total leaves the dtype), shapes (3,), (2,3); "
             f"{'quick tier runs danc/ds on shapes (3,),(2,3) only; ' if quick else ''}"
             "non-trivial = NumPy's result differs from the first argument")
 
